@@ -3,7 +3,6 @@
 package main
 
 import (
-	"os"
 	"sort"
 
 	"golang.org/x/perf/internal/stats"
@@ -29,10 +28,7 @@ func wdescrOne(xs, ws []float64, sorted bool, tag string) {
 	if sorted {
 		sort.Stable(byX{xs, ws})
 	}
-	if os.Getenv("VERIF_C12_NO_N12B") != "" && ws[0] == 0 {
-		// mutation self-tests: keep the known finding N12d (leading / all-zero weights) out of the way
-		ws[0] = 1
-	}
+
 	ps := []float64{-0.25, 0, 1.0 / 64, 0.125, 0.25, 0.375, 0.5, 0.625, 0.75, 0.875, 63.0 / 64, 1, 1.5}
 	s := stats.Sample{Xs: xs, Weights: ws, Sorted: sorted}
 	var mean, geo, mn, mx float64
@@ -59,11 +55,13 @@ func wdescrOne(xs, ws []float64, sorted bool, tag string) {
 
 func wdescrCases(r *hx.Rand, n int) {
 	if shard == 0 {
-		// fixed: zero weights at the ends and inside; the witness of N12d (leading zero weight)
+		// fixed: zero weights at the ends and inside; the witnesses of F26 (leading zero weight; all weights zero)
 		wdescrOne([]float64{1, 2, 3}, []float64{1, 0, 1}, true, "weighted+corpus")
 		wdescrOne([]float64{1, 2, 3, 4}, []float64{1, 2, 0, 0}, true, "weighted+corpus+trailingzero")
 		wdescrOne([]float64{3, 1, 2}, []float64{1, 0.5, 2}, false, "weighted+corpus")
 		wdescrOne([]float64{1, 2, 3}, []float64{0, 1, 1}, true, "weighted+corpus+leadingzero")
+		wdescrOne([]float64{1, 2, 3}, []float64{0, 0, 0}, true, "weighted+corpus+allzero")
+		wdescrOne([]float64{-1, 2, 3}, []float64{0, 1, 1}, false, "weighted+corpus+leadingzero")
 	}
 	for i := 0; i < n; i++ {
 		k := 1 + r.Intn(12)
